@@ -24,7 +24,9 @@ class C30(Prop):
              "on generated trees and configuration sets and comparing the set of removed files inside Coq.",
         note="Rests on the anchored Decode (fix 2b44fe1, C26): before it the cleaner deleted foreign *.mp4.bak files. "
              "Oracles shipped per case: Regexp.FindStringSubmatch != nil per (configuration, candidate name); the configuration "
-             "FindPathConf returns per candidate name (precedence itself is C14). Fixed-offset local zones; absolute clean record "
+             "FindPathConf returns per candidate name (precedence itself is C14). The theorems hold for every local zone (C26's lzone) and, for zone-database tables (DST), "
+             "every recorder-written segment is deleted once its listed start expired, that start being exact outside the "
+             "repeated hours and at most one clock change off inside one; the driver uses fixed-offset zones; absolute clean record "
              "paths (filepath.Abs = identity). Symbolic links count as non-directories (WalkDir does not follow them; a link "
              "named like an expired segment is unlinked). Not modelled: deleteEmptyDirs (directories only; observed: its walk "
              "stops after the first directory it removes, so at most one empty directory goes per path and pass), WalkDir I/O "
@@ -44,7 +46,7 @@ class C30(Prop):
                     "models Model/C26_RecPath.v + Model/C31_DeleteSeg.v + Model/C30_Cleaner.v hand-written, tied by correspondence (0 mismatches required)",
                     "oracle: regexp match per (configuration, name) and conf.FindPathConf result per name (shipped per case)",
                     "spec_fail uses C26's decode as the definition of 'segment of path p starting at t' plus generator labels for look-alikes"]
-    assumptions = ["record paths are absolute and clean, ASCII, '/' separators", "time.Local is a fixed-offset zone",
+    assumptions = ["record paths are absolute and clean, ASCII, '/' separators", "the driver sets time.Local to fixed-offset zones (real zones are driven by C26; theorems cover both)",
                    "no I/O errors during the walks; nobody else changes the tree during a pass",
                    "RecordDeleteAfter small enough for time.Time.Add not to saturate"]
 
